@@ -21,6 +21,14 @@ def pname(i, style="x"):
     return "x%d" % i
 
 
+def npcosts(v, as_numpy):
+    """signed costs as Individual.calc_signed_costs really stores them: numpy float64 objectives followed by the marker"""
+    if not as_numpy:
+        return list(v)
+    import numpy as np
+    return [np.float64(x) for x in v[:-1]] + [v[-1]]
+
+
 def params(bounds, extra=None):
     out = []
     for i, (lb, ub) in enumerate(bounds):
